@@ -340,11 +340,27 @@ def check_aug_guard(prog: Program, res: Result) -> None:
 def check_presets(prog: Program, res: Result, sch: Schema) -> None:
     fi = prog.func(f"{TRAIN}:get_backbone_config")
     res.touch(fi)
-    mappers: Dict[str, ast.Dict] = {}
-    for st in walk_function(fi.node):
-        if isinstance(st, ast.Assign) and isinstance(st.value, ast.Dict) and isinstance(st.targets[0], ast.Name):
-            mappers[st.targets[0].id] = st.value
-    for mname, d in mappers.items():
+    fnode = astq.unroll_literal_loops(fi.node)  # data-driven spellings (loops over literal tables, setattr) are unrolled first
+    holder = sch.classes.get("BackboneConfig", {})
+    # every `<name>.startswith('<family>')` branch stores <mapper>[<name>] in the field of that family
+    fams = {}
+    for st in walk_function(fnode):
+        if isinstance(st, ast.If) and isinstance(st.test, ast.Call) and isinstance(st.test.func, ast.Attribute) and st.test.func.attr == "startswith":
+            fam = st.test.args[0].value if st.test.args and isinstance(st.test.args[0], ast.Constant) else None
+            recv = norm(st.test.func.value)
+            for b in st.body:
+                if isinstance(b, ast.Assign) and isinstance(b.targets[0], ast.Attribute):
+                    v = b.value
+                    mapper = None
+                    if isinstance(v, ast.Subscript) and norm(v.slice) == recv:
+                        mapper = v.value if isinstance(v.value, ast.Dict) else (astq._single_defs(fnode).get(v.value.id) if isinstance(v.value, ast.Name) else None)
+                    ok = b.targets[0].attr == fam and isinstance(mapper, ast.Dict)
+                    res.ob("C20-preset", ok, fi.qualname, f"'{fam}*' -> backbone_config.{b.targets[0].attr} from the {fam} preset table",
+                           f"names starting with '{fam}' set `.{b.targets[0].attr}` from `{short(b.value, 40)}`", f"{fi.module.relpath}:{b.lineno}")
+                    if ok:
+                        fams[fam] = mapper
+    for fam, d in fams.items():
+        declared = holder[fam].types if fam in holder else []
         for k, v in zip(d.keys, d.values):
             if not (isinstance(k, ast.Constant) and isinstance(v, ast.Call)):
                 continue
@@ -352,31 +368,10 @@ def check_presets(prog: Program, res: Result, sch: Schema) -> None:
             base = cls.lower().replace("config", "")
             key = k.value.replace("_", "")
             ok = base == key or base + "tiny" == key
-            res.ob("C20-preset", ok and cls in sch.classes, fi.qualname, f"preset '{k.value}' -> {cls}",
+            res.ob("C20-preset", ok and cls in sch.classes and k.value.startswith(fam), fi.qualname, f"preset '{k.value}' -> {cls}",
                    f"backbone preset '{k.value}' builds a {cls}", f"{fi.module.relpath}:{k.lineno}")
-    # startswith(family) branch assigns the attribute of that family from the mapper of that family
-    for st in walk_function(fi.node):
-        if isinstance(st, ast.If) and isinstance(st.test, ast.Call) and isinstance(st.test.func, ast.Attribute) and st.test.func.attr == "startswith":
-            fam = st.test.args[0].value if st.test.args and isinstance(st.test.args[0], ast.Constant) else None
-            for b in st.body:
-                if isinstance(b, ast.Assign) and isinstance(b.targets[0], ast.Attribute):
-                    src = norm(b.value)
-                    ok = b.targets[0].attr == fam and src.startswith(f"{fam}_config_mapper[")
-                    res.ob("C20-preset", ok, fi.qualname, f"'{fam}*' -> backbone_config.{b.targets[0].attr} from {src[:30]}",
-                           f"names starting with '{fam}' set `.{b.targets[0].attr}` from `{short(b.value, 40)}`", f"{fi.module.relpath}:{b.lineno}")
-    # the preset object must be assignable to the declared type of the field it is stored in: OmegaConf.structured()
-    # (TrainingJobConfig.to_sleap_nn_cfg) rejects a value whose class is not the declared class or a subclass of it
-    fam_of = {"unet_config_mapper": "unet", "convnext_config_mapper": "convnext", "swint_config_mapper": "swint"}
-    holder = sch.classes.get("BackboneConfig", {})
-    for mname, d in mappers.items():
-        fam = fam_of.get(mname)
-        if fam is None or fam not in holder:
-            continue
-        declared = holder[fam].types
-        for k, v in zip(d.keys, d.values):
-            if not (isinstance(k, ast.Constant) and isinstance(v, ast.Call)):
-                continue
-            cls = norm(v.func).split(".")[-1]
+            # the preset object must be assignable to the declared type of the field it is stored in: OmegaConf.structured()
+            # (TrainingJobConfig.to_sleap_nn_cfg) rejects a value whose class is not the declared class or a subclass of it
             ci = sch.class_info.get(cls)
             anc = [c.name for c in prog.mro(ci)] if ci is not None else []
             ok = any(a in declared for a in anc)
@@ -384,6 +379,7 @@ def check_presets(prog: Program, res: Result, sch: Schema) -> None:
                    f"preset '{k.value}' stores a {cls} in BackboneConfig.{fam}, declared Optional[{', '.join(declared)}]; {cls} is not that class nor a subclass of it, "
                    "so converting the built configuration to its structured form (to_sleap_nn_cfg) raises ValidationError: the builder's result is unusable for this preset",
                    f"{fi.module.relpath}:{k.lineno}", sample={"class": cls, "mro": anc, "declared": declared})
+    res.ob("C20-preset", set(fams) == {"unet", "convnext", "swint"}, fi.qualname, "all three backbone families have a preset branch", f"preset branches exist for {sorted(fams)}", fi.where)
     res.floor("C20-assign", 12)
     res.floor("C20-preset", 15)
     # dict / string keys: '<key>' in cfg  /  cfg == '<key>'  ->  .<key> = <declared class>(**cfg['<key>'] ...)
@@ -391,7 +387,7 @@ def check_presets(prog: Program, res: Result, sch: Schema) -> None:
         f2 = prog.func(f"{TRAIN}:{fname}")
         res.touch(f2)
         fields = sch.fields_of(holder)
-        for st in walk_function(f2.node):
+        for st in walk_function(astq.unroll_literal_loops(f2.node)):
             if not isinstance(st, ast.If):
                 continue
             keys = {n.value for n in ast.walk(st.test) if isinstance(n, ast.Constant) and isinstance(n.value, str)}
@@ -432,9 +428,50 @@ def check_presets(prog: Program, res: Result, sch: Schema) -> None:
 
 
 # ------------------------------------------------------------------ comm
-def _branches(loop: ast.For) -> List[Tuple[str, List[ast.stmt]]]:
+def _dict_literal_named(fi, name: str) -> Optional[ast.Dict]:
+    """A dict literal bound once to `name` in the function or at module level."""
+    for scope in (fi.node, fi.module.tree):
+        defs = [s_ for s_ in (walk_function(scope) if scope is fi.node else scope.body) if isinstance(s_, ast.Assign) and len(s_.targets) == 1 and norm(s_.targets[0]) == name]
+        if len(defs) == 1 and isinstance(defs[0].value, ast.Dict):
+            return defs[0].value
+    return None
+
+
+def _table_branches(loop: ast.For, fi) -> List[Tuple[str, List[ast.stmt]]]:
+    """Table dispatch:  fld = TABLE.get(name) / TABLE[name] ; setattr(obj, fld, value)   ==   if name == k: obj.<TABLE[k]> = value."""
     out = []
     var = loop.target.id if isinstance(loop.target, ast.Name) else None
+    for c in ast.walk(loop):
+        if isinstance(c, ast.Call) and norm(c.func) == "setattr" and len(c.args) == 3 and isinstance(c.args[1], ast.Name):
+            fdefs = [s_ for s_ in ast.walk(loop) if isinstance(s_, ast.Assign) and norm(s_.targets[0]) == c.args[1].id]
+            if len(fdefs) != 1:
+                continue
+            table = None
+            for n in ast.walk(fdefs[0].value):
+                if isinstance(n, ast.Call) and isinstance(n.func, ast.Attribute) and n.func.attr == "get" and n.args and norm(n.args[0]) == var:
+                    table = _dict_literal_named(fi, norm(n.func.value))
+                elif isinstance(n, ast.Subscript) and norm(n.slice) == var:
+                    table = _dict_literal_named(fi, norm(n.value))
+            if table is None:
+                continue
+            for k, v in zip(table.keys, table.values):
+                if isinstance(k, ast.Constant) and isinstance(v, ast.Constant) and isinstance(v.value, str):
+                    from ..core.inline import clone
+                    from ..core.program import set_parents
+
+                    tgt = ast.Attribute(value=clone(c.args[0]), attr=v.value, ctx=ast.Store())
+                    asg = ast.Assign(targets=[tgt], value=clone(c.args[2]), lineno=c.lineno, col_offset=0)
+                    ast.fix_missing_locations(asg)
+                    set_parents(asg)
+                    out.append((k.value, [asg]))
+    return out
+
+
+def _branches(loop: ast.For, fi=None) -> List[Tuple[str, List[ast.stmt]]]:
+    out = []
+    var = loop.target.id if isinstance(loop.target, ast.Name) else None
+    if fi is not None:
+        out += _table_branches(loop, fi)
     for st in loop.body:
         cur = st
         while isinstance(cur, ast.If):
@@ -465,7 +502,7 @@ def check_comm(prog: Program, res: Result, sch: Schema) -> None:
     res.ob("C20-comm", len(loops) == 2, fi.qualname, "two list dispatch loops", f"{len(loops)} dispatch loops in get_aug_config", fi.where)
     seen_names: Set[str] = set()
     for loop in loops:
-        br = _branches(loop)
+        br = _branches(loop, fi)
         names = [b[0] for b in br]
         seen_names |= set(names)
         assigns = {name: _field_assigns(body) for name, body in br}
